@@ -165,7 +165,7 @@ def shard_flags(sh, part, parts):
     import random
     random.Random(sh.seed).shuffle(jobs)
     mine = jobs[part::parts]
-    reps = 3 if sh.tier == 'quick' else 6
+    reps = 3 if sh.tier == 'quick' else 20
     for (tr_, mv_, sub_, inter_, noise_), heuristic in mine:
         n = rng.choice([24, 64])
         for rep in range(reps):   # equally sized consecutive batches in one process
